@@ -5,6 +5,7 @@ import (
 	"context"
 	"encoding/json"
 	"fmt"
+	"github.com/DATA-DOG/go-sqlmock"
 	"reflect"
 	"regexp"
 	"strings"
@@ -391,6 +392,22 @@ func evalPlanner(c PCase) (problems []string, n int) {
 	}()
 	d, pl := dfu.MySQL, mysql.DefaultPlan
 	scan := func(in string) ([]string, error) { return texts((*mysql.Driver)(nil).ScanStmts(in)) }
+	if c.Dialect == "tidb" {
+		// the MySQL driver opened on a connection that reports a TiDB version plans through the TiDB
+		// planner (one sub-plan per atomic change, merged afterwards); planning issues no queries.
+		db, m, err := sqlmock.New()
+		if err != nil {
+			return []string{"harness: " + err.Error()}, 0
+		}
+		defer db.Close()
+		m.ExpectQuery("SELECT @@version").WillReturnRows(sqlmock.NewRows([]string{"@@version", "@@collation_server", "@@character_set_server", "@@lower_case_table_names"}).
+			AddRow("5.7.25-TiDB-v6.1.0", "utf8mb4_bin", "utf8mb4", 2))
+		drv, err := mysql.Open(db)
+		if err != nil {
+			return []string{"harness: opening the TiDB driver: " + err.Error()}, 0
+		}
+		pl = drv
+	}
 	if c.Dialect == "postgres" {
 		d, pl = dfu.Postgres, postgres.DefaultPlan
 		scan = func(in string) ([]string, error) { return texts((*postgres.Driver)(nil).ScanStmts(in)) }
@@ -493,17 +510,21 @@ func texts(st []*migrate.Stmt, err error) ([]string, error) {
 
 func plannerCases(tier string) []PCase {
 	var cs []PCase
-	for _, d := range []*dfu.Dialect{dfu.MySQL, dfu.Postgres} {
+	for _, dn := range []string{"mysql", "postgres", "tidb"} {
+		d := dfu.MySQL
+		if dn == "postgres" {
+			d = dfu.Postgres
+		}
 		for _, ind := range []string{"", "  "} {
-			cs = append(cs, PCase{d.Name, "create_all", nil, ind}, PCase{d.Name, "drop_all", nil, ind})
+			cs = append(cs, PCase{dn, "create_all", nil, ind}, PCase{dn, "drop_all", nil, ind})
 			es := dfu.Edits(d)
 			for _, e := range es {
-				cs = append(cs, PCase{d.Name, "edits", []string{e.Name}, ind})
+				cs = append(cs, PCase{dn, "edits", []string{e.Name}, ind})
 			}
 			for i := range es {
 				for j := i + 1; j < len(es); j++ {
 					if dfu.Compatible(es[i], es[j]) && (tier == "thorough" || (i+j)%5 == 0) {
-						cs = append(cs, PCase{d.Name, "edits", []string{es[i].Name, es[j].Name}, ind})
+						cs = append(cs, PCase{dn, "edits", []string{es[i].Name, es[j].Name}, ind})
 					}
 				}
 			}
@@ -527,7 +548,7 @@ func Run(r *report.Run) {
 		}
 	}
 	r.Set("mysql_postgres_plans_checked_for_flag_and_down_files", pn)
-	r.Rule = "(planner level) MySQL and PostgreSQL plans of the differ universe (create-all, drop-all, every single edit, a fifth of the compatible pairs; thorough: all pairs) x 2 indents: parts (a) and (b) below, and an ALTER TABLE of k clauses must be reversed by at least k clauses; (engine level) pairs (A,B) of the SQLite universe as in C01 x indent {none, two spaces} x desired state {evaluated from HCL, inspected from a live database built with B's DDL}: plan from the real differ/planner; (a) Reversible <=> every change has a reverse statement, a plan that rebuilds a table is never reversible; (b) for the 5 third-party formatters the down part (our own extraction + the dialect scanner) equals the reverse statements in reverse change order; (c) for reversible plans: up then down on the real engine restores the catalogue read by our own pragma dump, and atlas reports no difference from the starting schema in both directions; non-trivial = pair with a non-empty plan; distinct = (A,B,indent,source)"
+	r.Rule = "(planner level) MySQL, PostgreSQL and TiDB (MySQL driver on a mocked TiDB connection) plans of the differ universe (create-all, drop-all, every single edit, a fifth of the compatible pairs; thorough: all pairs) x 2 indents: parts (a) and (b) below, and an ALTER TABLE of k clauses must be reversed by at least k clauses; (engine level) pairs (A,B) of the SQLite universe as in C01 x indent {none, two spaces} x desired state {evaluated from HCL, inspected from a live database built with B's DDL}: plan from the real differ/planner; (a) Reversible <=> every change has a reverse statement, a plan that rebuilds a table is never reversible; (b) for the 5 third-party formatters the down part (our own extraction + the dialect scanner) equals the reverse statements in reverse change order; (c) for reversible plans: up then down on the real engine restores the catalogue read by our own pragma dump, and atlas reports no difference from the starting schema in both directions; non-trivial = pair with a non-empty plan; distinct = (A,B,indent,source)"
 	r.Assumptions = []string{"MySQL/PostgreSQL plans are covered for (a) and (b) by the planner-level checks; (c) needs an engine and is SQLite only"}
 	cs := pairs(r.Tier)
 	var mu sync.Mutex
